@@ -1116,3 +1116,117 @@ pub fn same_name_variant(rng: &mut Rng, name: &str) -> String {
 pub fn shared_type_name(rng: &mut Rng) -> String {
     rng.pick(&["Struct", "Enum", "Item", "Node", "Config", "G0", "G1", "G2"]).to_string()
 }
+
+/// "The user edited the item and it is expanded again" — a polluter that keeps the target's name,
+/// its field / variant names and most of its tokens, and changes one or two details: discriminant
+/// values, a field type, a literal, `#[repr]`, the order of two fields or variants, one requested
+/// trait. Anything memoised under a key that does not cover the whole input is exposed.
+pub fn edited_copy(rng: &mut Rng, text: &str) -> Option<String> {
+    use quote::ToTokens;
+    let ts: proc_macro2::TokenStream = text.parse().ok()?;
+    let mut di: syn::DeriveInput = syn::parse2(ts).ok()?;
+    let n_edits = rng.range(1, 2);
+    let mut done = 0;
+    for _ in 0..8 {
+        if done >= n_edits {
+            break;
+        }
+        // enums: discriminant edits are the commonest real edit and get extra weight
+        let choice = if matches!(di.data, syn::Data::Enum(_)) && rng.chance(1, 3) { 0 } else { rng.below(7) };
+        match (&mut di.data, choice) {
+            (syn::Data::Enum(e), 0) if !e.variants.is_empty() => {
+                // new discriminant values on the unit variants (other magnitudes)
+                let base: i64 = *rng.pick(&[0i64, 100, 200, -129, 40_000, 3_000_000_000]);
+                let mut any = false;
+                for (i, v) in e.variants.iter_mut().enumerate() {
+                    if matches!(v.fields, syn::Fields::Unit) {
+                        let val = proc_macro2::Literal::i64_unsuffixed(base + 7 * i as i64);
+                        v.discriminant = Some((Default::default(), syn::parse_quote!(#val)));
+                        any = true;
+                    }
+                }
+                if any {
+                    done += 1;
+                }
+            },
+            (syn::Data::Enum(e), 1) if e.variants.len() >= 2 => {
+                let n = e.variants.len();
+                let (a, b) = (rng.usize(n), rng.usize(n));
+                if a != b {
+                    let mut v: Vec<syn::Variant> = e.variants.iter().cloned().collect();
+                    v.swap(a, b);
+                    e.variants = v.into_iter().collect();
+                    done += 1;
+                }
+            },
+            (_, 2) => {
+                // #[repr] toggled
+                let had = di.attrs.iter().any(|a| a.path().is_ident("repr"));
+                if had {
+                    di.attrs.retain(|a| !a.path().is_ident("repr"));
+                } else if matches!(di.data, syn::Data::Enum(_)) {
+                    let r: syn::Ident = syn::Ident::new(*rng.pick(&["u8", "i16", "u32", "i64"]), proc_macro2::Span::call_site());
+                    di.attrs.push(syn::parse_quote!(#[repr(#r)]));
+                } else {
+                    continue;
+                }
+                done += 1;
+            },
+            (data, 3) | (data, 4) => {
+                // one field's type changes
+                let mut fields: Vec<&mut syn::Field> = match data {
+                    syn::Data::Struct(s) => s.fields.iter_mut().collect(),
+                    syn::Data::Enum(e) => e.variants.iter_mut().flat_map(|v| v.fields.iter_mut()).collect(),
+                    syn::Data::Union(u) => u.fields.named.iter_mut().collect(),
+                };
+                if fields.is_empty() {
+                    continue;
+                }
+                let k = rng.usize(fields.len());
+                let old = fields[k].ty.to_token_stream().to_string();
+                let new_ty: syn::Type = match rng.below(5) {
+                    0 => syn::parse_quote!(u64),
+                    1 => syn::parse_quote!(String),
+                    2 => syn::parse_str(&format!("Vec<{old}>")).ok()?,
+                    3 => syn::parse_str(&format!("Option<{old}>")).ok()?,
+                    _ => syn::parse_quote!(Item),
+                };
+                fields[k].ty = new_ty;
+                done += 1;
+            },
+            (syn::Data::Struct(s), 5) => {
+                if let syn::Fields::Named(n) = &mut s.fields {
+                    if n.named.len() >= 2 {
+                        let len = n.named.len();
+                        let (a, b) = (rng.usize(len), rng.usize(len));
+                        if a != b {
+                            let mut v: Vec<syn::Field> = n.named.iter().cloned().collect();
+                            v.swap(a, b);
+                            n.named = v.into_iter().collect();
+                            done += 1;
+                        }
+                    }
+                }
+            },
+            (_, 6) => {
+                // drop one educe attribute line (one or more requested traits disappear)
+                let idx: Vec<usize> = di.attrs.iter().enumerate().filter(|(_, a)| a.path().is_ident("educe")).map(|(i, _)| i).collect();
+                if idx.len() >= 2 {
+                    let k = *rng.pick(&idx);
+                    di.attrs.remove(k);
+                    done += 1;
+                }
+            },
+            _ => {},
+        }
+    }
+    if done == 0 {
+        return None;
+    }
+    let out = di.to_token_stream().to_string();
+    if out == text {
+        None
+    } else {
+        Some(out)
+    }
+}
